@@ -274,7 +274,7 @@ def gen_tie(pid: str):
         if "GFn" in imports:
             from gen_units import translate_fns
 
-            gens.append(("GFn.v", "fn2coq", lambda repo: translate_fns(repo)[:2]))
+            gens.append(("GFn.v", "fn2coq", lambda repo: translate_fns(repo, pid)[:2]))
         for gname, tool, trans in gens:
             try:
                 text, errs = trans(REPO)
